@@ -376,17 +376,31 @@ def run(out: core.Outcome) -> None:
             ref = list(refine_droplets(dfield, cands(), num_processes=1, **copy.deepcopy(kw)))
             ref2 = list(refine_droplets(dfield, cands(), num_processes=1, **copy.deepcopy(kw)))
             variants = {"repeated serial run": ref2}
+
+            def attempt(label, make, procs):
+                try:
+                    variants[label] = list(refine_droplets(dfield, make(), num_processes=procs, **copy.deepcopy(kw)))
+                except Exception as exc:  # noqa: BLE001
+                    variants[label] = f"raised {type(exc).__name__}: {str(exc)[:120]}"
+
             for procs in (1, 2, 3):
-                variants[f"list, {procs} processes"] = list(refine_droplets(dfield, cands(), num_processes=procs, **copy.deepcopy(kw)))
-                variants[f"generator, {procs} processes"] = list(refine_droplets(dfield, (c for c in cands()), num_processes=procs, **copy.deepcopy(kw)))
-                variants[f"iterator, {procs} processes"] = list(refine_droplets(dfield, iter(cands()), num_processes=procs, **copy.deepcopy(kw)))
-                variants[f"filter, {procs} processes"] = list(refine_droplets(dfield, filter(lambda c: True, cands()), num_processes=procs, **copy.deepcopy(kw)))
-                variants[f"Emulsion, {procs} processes"] = list(refine_droplets(dfield, Emulsion(cands()), num_processes=procs, **copy.deepcopy(kw)))
+                attempt(f"list, {procs} processes", cands, procs)
+                attempt(f"generator, {procs} processes", lambda: (c for c in cands()), procs)
+                attempt(f"iterator, {procs} processes", lambda: iter(cands()), procs)
+                attempt(f"filter, {procs} processes", lambda: filter(lambda c: True, cands()), procs)
+                attempt(f"Emulsion without the plain spherical candidate, {procs} processes", lambda: Emulsion([c for c in cands() if type(c) is DiffuseDroplet]), procs)
+            ref_d = [r for r, c in zip(ref, cands()) if type(c) is DiffuseDroplet]
             for name_v, res in variants.items():
                 out.evaluations += 1
-                if len(res) != len(ref) or not all(_same([a], [b]) for a, b in zip(res, ref)):
+                want = ref_d if name_v.startswith("Emulsion") else ref
+                if isinstance(res, str):
                     out.violation({"scenario": "refine_droplets-direct", "max_nfev": budget, "variant": name_v,
-                                   "fails": [f"{len(res)} droplets, serial list run {len(ref)}; or parameters differ"]})
+                                   "fails": [f"{res} (the serial list run returns {len(want)} droplets)"]})
+                    continue
+                ref_here = want
+                if len(res) != len(ref_here) or not all(_same([a], [b]) for a, b in zip(res, ref_here)):
+                    out.violation({"scenario": "refine_droplets-direct", "max_nfev": budget, "variant": name_v,
+                                   "fails": [f"{len(res)} droplets, serial list run {len(ref_here)}; or parameters differ"]})
     # ---- code -> spec: validate the recorded schedules
     for key, trs in traces.items():
         n, w, none = key
